@@ -683,6 +683,34 @@ func (x *Exec) loopStep(fr *frame, li *loopInfo, latch, head *ssa.BasicBlock) {
 	for i, f := range li.spec.InvFns {
 		x.vc.oblige(fmt.Sprintf("%s#inv-step:%s.f%d@b%d", x.eng.fnKey(fr.fn), x.loopName(fr, li), i+1, latch.Index), "inv-step", r, f(env, hphis), x.eng.pos(head.Instrs[0].Pos()))
 	}
+	// `loop k reaches X [when E]`: this iteration passed through a site X inside the loop
+	for i, lr := range li.spec.Reaches {
+		var sites []string
+		if x.trace != nil {
+			if lr.What == "mapupdate" {
+				for _, mu := range x.trace.mapUpdates {
+					if mu.Fn == fr.fn && li.blocks[mu.Instr.Block()] {
+						sites = append(sites, mu.Reach)
+					}
+				}
+			} else {
+				for _, c := range x.trace.calls {
+					if c.Fn == fr.fn && c.Depth == fr.depth && c.Instr != nil && li.blocks[c.Instr.Block()] && calleeMatch(strings.TrimPrefix(lr.What, "call "), c.Callee) {
+						sites = append(sites, c.Reach)
+					}
+				}
+			}
+		}
+		goal := or(sites...)
+		if len(sites) == 0 {
+			goal = "false"
+		}
+		if lr.When != nil {
+			// the condition speaks about this iteration's values: evaluated at the back edge
+			goal = implies(x.evalBool(x.specEnv(fr, &st, latch, 0), lr.When.Expr), goal)
+		}
+		x.vc.oblige(fmt.Sprintf("%s#inv-step:%s.reaches%d(%s)@b%d", x.eng.fnKey(fr.fn), x.loopName(fr, li), i+1, lr.What, latch.Index), "inv-step", r, goal, x.eng.pos(head.Instrs[0].Pos()))
+	}
 	// the iteration respects the loop's modifies clause: what the head assumed unchanged since
 	// loop entry is unchanged at the back edge too
 	if li.headMem != "" && st.Mem != li.headMem {
